@@ -20,7 +20,7 @@ RULE = (
     "or BGZF with 0-6 drawn block cuts (cuts inside lines, empty trailing block); run `index`, load the pickle, resolve every "
     "listed offset with GAF.read_line. For every graph node: the set of records its offsets resolve to == the records that "
     "traverse it by definition; each offset returns precisely that record (12 columns); keys are (id,SN,SO,SO+LN); nodes "
-    "without records have no key; ref_contig = rank-0 contigs. Non-trivial = >=2 records, a node with >=2 records and a node "
+    "without records have no key (the extra 'ref_contig' entry of the pickle is not part of the statement and not judged). Non-trivial = >=2 records, a node with >=2 records and a node "
     "with none, and for BGZF >=2 data blocks with a record starting beyond the first. Distinct by SHA-1 of the case."
 )
 ASSUMPTIONS = ["duplicate offsets inside one node's list are not judged here (set semantics; exactly-once output is C04's claim)"]
@@ -56,9 +56,6 @@ def run_case(case):
         with open(d + "/out.gvi", "rb") as f:
             ind = pickle.load(f)
         core.check(isinstance(ind, dict), "index is not a dict")
-        ref = ind.get("ref_contig")
-        want_ref = {v["sn"] for v in nodes.values() if v["sr"] == 0}
-        core.check(ref is not None and set(ref) == want_ref, "ref_contig = %s, rank-0 contigs = %s", ref, sorted(want_ref))
         expected = {n: set() for n in nodes}
         cols = []
         for i, l in enumerate(lines):
